@@ -7,6 +7,7 @@ package main
 
 import (
 	"fmt"
+	"os"
 	"regexp"
 	"strings"
 
@@ -215,13 +216,14 @@ func ownerRevisions(f *lib.Flags, res *lib.Result) {
 	res.Distribution["owner_revision_pairs"] = n
 }
 
-// leftoverOrder: known finding D67.  Splitting an augment-free submodule off a module changes the
-// order in which the single leftover pass `Augment(true)` (after FixChoice) visits the modules that
-// still hold pending augments (the swap-remove of the augment loop permutes the survivors), and that
-// pass is order dependent when one leftover augment's target is created by another: the unsplit set
-// processes cleanly, the split set reports `augment ... not found`.  The witness (found while proving
-// include = inline with augments, corpus/C13/D67-witness.txt) runs in both spellings; the finding is
-// recognised by its exact signature (unsplit clean, split = exactly one augment-not-found error); any other difference between the two spellings is reported as a violation.
+// leftoverOrder: regression witness of D67 (repaired).  Splitting an augment-free submodule off a
+// module changes the order in which the stage after FixChoice meets the modules that still hold
+// pending augments (the swap-remove of the augment loop permutes the survivors).  That stage used to be
+// one sweep `Augment(true)`, order dependent when one augment's target is created by another: the
+// unsplit set processed cleanly, the split set reported `augment ... not found`.  It is now a fixpoint
+// (the loop is retried, FixChoice after every productive round).  The witness (found while proving
+// include = inline with augments, corpus/C13/D67-witness.txt) runs in both spellings: any difference
+// between them is reported as a violation, and both must agree with the model.
 func leftoverOrder(f *lib.Flags, res *lib.Result) {
 	ma := `module ma { namespace "urn:ma"; prefix ma; import t { prefix t; } augment "/t:ch/t:x" { container y { } } }`
 	mb := `module mb { namespace "urn:mb"; prefix mb; import t { prefix t; } import ma { prefix ma; } augment "/t:ch/t:x/ma:y" { leaf z { type string; } } }`
@@ -252,25 +254,104 @@ func leftoverOrder(f *lib.Flags, res *lib.Result) {
 	gu := stripPos(lib.Project(u.Go.Dump, keys, true))
 	res.Distribution["leftover_order_pairs"] = 1
 	if d := rescorr.Diff(gu, gs); d != "" {
-		known := ""
-		nErrU, errsS := 0, []string{}
-		for _, r := range gu {
-			if strings.HasPrefix(r, "E ") {
-				nErrU++
-			}
-		}
-		for _, r := range gs {
-			if strings.HasPrefix(r, "E ") {
-				errsS = append(errsS, r)
-			}
-		}
-		if nErrU == 0 && len(errsS) == 1 && errsS[0] == "E augment-not-found" {
-			known = "D67"
-		}
 		res.AddDisagreement(lib.Disagreement{Kind: "spec", Input: map[string]any{"unsplit": u.Case, "split": s.Case}, Go: gs, Model: gu,
-			SpecVerdict: "violates", Known: known,
-			What: "a module split into owner + augment-free submodule differs from the unsplit module (leftover augments chained through an implied case): " + d, Replay: s.Case})
+			SpecVerdict: "violates",
+			What:        "a module split into owner + augment-free submodule differs from the unsplit module (augments left for the stage after FixChoice, chained through an implied case): " + d, Replay: s.Case})
 	}
+	for _, o := range []rescorr.Outcome{u, s} {
+		if o.Outside != "" {
+			continue
+		}
+		g := lib.Project(o.Go.Dump, keys, true)
+		m := lib.Project(o.Model, keys, true)
+		if d := rescorr.Diff(g, m); d != "" {
+			res.AddDisagreement(lib.Disagreement{Kind: "correspondence", Input: o.Case, Go: g, Model: m,
+				What: "resolver differs from the model on the leftover-order witness: " + d, Replay: o.Case})
+		}
+	}
+}
+
+// leftoverChains: chains of augments that only become applicable after FixChoice (targets below
+// implied cases; gen.LeftoverChains: 2-4 links across modules, every assignment of module names to
+// the links, links that add short-hand choice members of their own, complete and broken chains), each
+// set unsplit and with an augment-free submodule split off the target module (submodule name sorting
+// first / last).  Every spelling must agree with the model, and every split spelling with the unsplit
+// one (position-free; the submodule's own tree has no counterpart).
+func leftoverChains(f *lib.Flags, res *lib.Result) {
+	depth := 3
+	if f.Thorough() || os.Getenv("C13C_CHAIN_DEPTH") == "4" {
+		depth = 4 // (the environment variable is a maintenance aid: the long chains in the quick tier)
+	}
+	chains := gen.LeftoverChains(depth)
+	var cases []rescorr.Case
+	per := 0
+	for _, c := range chains {
+		cases = append(cases, rescorr.Case{Names: c.Names, Texts: c.Texts, Extra: map[string]string{"variant": "unsplit", "id": c.Label}})
+		for _, sp := range c.Splits {
+			cases = append(cases, rescorr.Case{Names: sp.Names, Texts: sp.Texts,
+				Extra: map[string]string{"variant": "split", "id": c.Label, "module": "t", "sub": sp.Sub}})
+		}
+		per = 1 + len(c.Splits)
+	}
+	outs := rescorr.RunAll(cases, f)
+	var pairs, complete, broken int64
+	for ci, c := range chains {
+		grp := outs[ci*per : (ci+1)*per]
+		bad := false
+		for _, o := range grp {
+			if o.Crashed {
+				res.AddDisagreement(lib.Disagreement{Kind: "crash", Input: o.Case, Go: o.CrashMsg, SpecVerdict: "violates",
+					What: "goyang crashed or hung on a leftover chain", Replay: o.Case})
+				bad = true
+			}
+			if o.Skipped != "" {
+				bad = true
+			}
+		}
+		if bad {
+			continue
+		}
+		if c.Broken == 0 {
+			complete++
+		} else {
+			broken++
+		}
+		for _, o := range grp {
+			if o.Outside != "" {
+				continue
+			}
+			g := lib.Project(o.Go.Dump, keys, true)
+			m := lib.Project(o.Model, keys, true)
+			if d := rescorr.Diff(g, m); d != "" {
+				res.AddDisagreement(lib.Disagreement{Kind: "correspondence", Input: o.Case, Go: g, Model: m,
+					What: "resolver differs from the model on a chain of augments left for the stage after FixChoice: " + d, Replay: o.Case})
+			}
+		}
+		u := grp[0]
+		gu := stripPos(lib.Project(u.Go.Dump, keys, true))
+		if c.Broken == 0 && rescorr.HasErrors(u.Go.Dump) {
+			res.AddDisagreement(lib.Disagreement{Kind: "spec", Input: u.Case, Go: gu, SpecVerdict: "violates",
+				What: "a complete chain of augments (every target is created by the previous link) is reported with errors: " + c.Label, Replay: u.Case})
+		}
+		for _, s := range grp[1:] {
+			var gs []string
+			for _, r := range stripPos(lib.Project(s.Go.Dump, keys, true)) {
+				if fs := strings.Fields(r); len(fs) > 1 && fs[0] == "N" && fs[1] == lib.HexS(s.Case.Extra["sub"]) {
+					continue // the submodule's own tree has no counterpart in the unsplit set
+				}
+				gs = append(gs, r)
+			}
+			pairs++
+			if d := rescorr.Diff(gu, gs); d != "" {
+				res.AddDisagreement(lib.Disagreement{Kind: "spec", Input: map[string]any{"unsplit": u.Case, "split": s.Case}, Go: gs, Model: gu,
+					SpecVerdict: "violates",
+					What:        "a module split into owner + augment-free submodule differs from the unsplit module (chain of augments left for the stage after FixChoice, " + c.Label + "): " + d, Replay: s.Case})
+			}
+		}
+	}
+	res.Distribution["leftover_chain_sets(complete)"] = complete
+	res.Distribution["leftover_chain_sets(one link missing)"] = broken
+	res.Distribution["leftover_chain_pairs(unsplit vs split)"] = pairs
 }
 
 func main() {
@@ -349,6 +430,7 @@ func main() {
 	// must hold the submodule's nodes, as the unsplit revisions do
 	ownerRevisions(f, res)
 	leftoverOrder(f, res)
+	leftoverChains(f, res)
 	outs := rescorr.RunAll(cases, f)
 	// incremental variants: Go against Go (batch), position-free (load order moves nothing, but the
 	// comparison is shared with the split variant)
